@@ -462,6 +462,29 @@ lemma sampleN_cur_of_driven (Φ : N → List (N × V) → V → V) (ds : Nat →
     rw [sampleN, ih _ hs' h2, Function.iterate_succ_apply]
     simp [sweep_eq_sweepL, sweepL_cur_of_driven Φ ds g.names g hs h1]
 
+/-! ### legacy `Gibbs` -/
+
+/-- every transition the legacy model consumes while sweeping over `l` is the one `Φ n tgt`
+    prescribes for the fresh sampler built on the target `tgt`, started at the block's value -/
+def LDrivenSweep (Φ : N → List (N × V) → V → V) (ds : Nat → V) (names : List N) :
+    List N → LSt N V → Prop
+  | [], _ => True
+  | n :: l, st =>
+    ds st.2.1 = Φ n (others names st.1 n) (st.1 n) ∧ LDrivenSweep Φ ds names l (lblock ds names st n)
+
+lemma legacyKernel_eq (x0 d : V) : legacyKernel x0 d = d := by
+  simp [legacyKernel, sample2]
+
+lemma lsweepL_cur_of_driven (Φ : N → List (N × V) → V → V) (ds : Nat → V) (names l : List N)
+    (st : LSt N V) (h : LDrivenSweep Φ ds names l st) :
+    (lsweepL ds names l st).1 = sweepFn Φ names (fun _ => 1) l st.1 := by
+  induction l generalizing st with
+  | nil => rfl
+  | cons n l ih =>
+    obtain ⟨h1, h2⟩ := h
+    rw [lsweepL_cons, ih _ h2]
+    simp [sweepFn, lblock, legacyKernel_eq, h1, modelStep]
+
 end model
 
 end CuqiVerif.C09
